@@ -65,9 +65,40 @@ def make_samplers(cfg, rng, tree_dist):
     return prun.setup_samplers(kernel, cfg.get("N", 2), cfg.get("outlier_prior", 0.0), cfg.get("threshold", 0.5), rng, tree_dist)
 
 
+def samplers_after_burnin(cfg, rng, tree_dist):
+    """The sampler set of the run loop AFTER it was used for burn-in: setup_samplers hands one kernel object to the burn-in,
+    tree and subtree samplers, and the run performs burn-in passes before the first update.  The burn-in pass here draws from
+    a seeded generator of its own (its outcomes are not part of the move under test)."""
+    import numpy as np
+    from phyclone.tree import Tree
+
+    samplers = make_samplers(cfg, rng, tree_dist)
+    wrng = np.random.default_rng(23)
+    objs = [o for o in (samplers.burnin_sampler, getattr(samplers.burnin_sampler, "kernel", None), getattr(samplers.tree_sampler, "kernel", None)) if o is not None]
+    saved = [(o, o._rng) for o in objs if hasattr(o, "_rng")]
+    for o, _ in saved:
+        o._rng = wrng
+    try:
+        t = Tree.get_single_node_tree(config_data(cfg))
+        for _ in range(2):
+            t = samplers.burnin_sampler.sample_tree(t)
+    finally:
+        for o, r in saved:
+            o._rng = r
+    # the run loop clears the proposal memos before every SMC move; here it is also needed for the harness itself: proposal
+    # objects memoised during the warm-up keep the warm-up's generator and would draw outside the enumeration
+    from phyclone.utils.dev import clear_proposal_dist_caches
+
+    clear_proposal_dist_caches()
+    return samplers
+
+
 def apply_move(cfg, rng, tree, tree_dist):
     """One application of the move under test; returns the new real Tree."""
     move = cfg["move"]
+    if cfg.get("after_burnin") and move in ("pg", "subtree"):
+        smp = samplers_after_burnin(cfg, rng, tree_dist)
+        return (smp.tree_sampler if move == "pg" else smp.subtree_sampler).sample_tree(tree)
     if move == "pg":
         if cfg.get("wiring", "library") == "run":
             return make_samplers(cfg, rng, tree_dist).tree_sampler.sample_tree(tree)
